@@ -1,7 +1,7 @@
 (* Dispatcher: one wire line = a list of cases [model_id; payload]. *)
 From Coq Require Import ZArith List Bool.
 From OV Require Import Base.Wire.
-From OV Require Model.NamedList.
+From OV Require Model.NamedList Model.IsoTp.
 Import ListNotations.
 Open Scope Z_scope.
 
@@ -10,6 +10,8 @@ Definition run_case (t : tok) : tok :=
   let p := tnth (tl t) 1 in
   if m =? 0 then p                                 (* echo: validates the wire codec *)
   else if m =? 16 then NamedList.run_case p
+  else if m =? 12 then IsoTp.run_case p
+  else if m =? 112 then IsoTp.segment_case p
   else TL [TZ (-999)].
 
 Definition run_wire (inp : list Z) : list Z :=
